@@ -412,6 +412,9 @@ func (r *RefCount[T]) resolve(ctx context.Context, waitCh, doneCh chan struct{},
 	if waitCh != nil {
 		select {
 		case <-ctx.Done():
+			// the previous resolve goroutine may still be inside the resolver: wait
+			// for it before closing doneCh, which releases the goroutine after us.
+			<-waitCh
 			return
 		case <-waitCh:
 		}
